@@ -23,9 +23,7 @@ class SubVertex(Vertex):
         """A normalising property that keeps its raw value in the instance dictionary under its own name (a data
         descriptor wins over the instance dictionary, so `v.code` / `v["code"]` are the NORMALISED value)."""
         raw = self.__dict__.get("code")
-        if raw is None:
-            raise AttributeError("code")
-        return raw.upper()
+        return None if raw is None else raw.upper()
 
     @code.setter
     def code(self, raw):
